@@ -540,7 +540,7 @@ def ipaddr_family(tier, rng):
         yield h
 
 
-_HOSTS = ["", "a", "Host", "EXAMPLE.com", "127.0.0.1", "::1", "FE80::1",
+_HOSTS = ["unix", "UNIX", "tcp", "udp", "inet", "file", "localhost", "", "a", "Host", "EXAMPLE.com", "127.0.0.1", "::1", "FE80::1",
           "[::1]", "[FE80::1]", "[a]", "[A.b]", "[]", "1:2:3", "*", "a_b",
           "é", "İ", "[", "]", "a]", "[a", "x y"]
 _PORTS = ["", "0", "1", "80", "65535", "65536", "99999", "-1", "-0", "0080",
